@@ -18,8 +18,9 @@ tvars == <<l, st>>
 Conforms(e, r) ==
   IF e.a.op = "Search"
   THEN /\ SearchConforms(st, e.a.t, e.a.key, e.o)
-       /\ e.o.v = <<>> /\ e.o.new = <<>> /\ e.o.rem = -1
+       /\ e.o.v = <<>> /\ e.o.new = <<>> /\ e.o.rem = -1 /\ e.o.aux = <<>>
        /\ (e.o.ok => e.o.err = "")
+  ELSE IF e.a.op = "ScopeEq" THEN ScopeEqConforms(st, e.a.t, e.a.a, e.o)
   ELSE e.o = r.obs
 
 TInit == l = 1 /\ st = InitState(<<>>)
@@ -33,13 +34,17 @@ TNext ==
      ELSE IF e.a.op \notin KnownOps
      THEN /\ st' = st
           /\ PrintT(<<"UNMODELLED", e.a.op>>)
-     ELSE IF e.a.t \notin DOMAIN st.objs
-     \* the implementation created an object where the specification prescribes a failure (an
-     \* earlier MISMATCH of this case): the rest of the case refers to objects the model does not have
+     ELSE IF \/ e.a.t \notin DOMAIN st.objs
+             \/ st.objs[e.a.t].kind # OpKind(e.a.op)
+             \/ (e.a.op = "ScopeEq" /\ (e.a.a \notin DOMAIN st.objs \/ st.objs[e.a.a].kind # "scope"))
+     \* the implementation created an object where the specification prescribes a failure, or an object
+     \* of another kind (an earlier MISMATCH of this case): the rest of the case refers to objects the
+     \* model does not have
      THEN /\ st' = st
           /\ PrintT(<<"MISMATCH", ToJson([i |-> e.i, case |-> e.case, o |-> e.a,
                                           want |-> [ok |-> FALSE, err |-> "no such object in the model", v |-> <<>>,
-                                                    num |-> 0, cnt |-> 0, new |-> <<>>, rem |-> -1, touched |-> <<>>],
+                                                    num |-> 0, cnt |-> 0, new |-> <<>>, rem |-> -1, touched |-> <<>>,
+                                                    aux |-> <<>>],
                                           got |-> e.o])>>)
      ELSE LET r == Apply(st, e.a) IN
           /\ st' = r.st
